@@ -166,10 +166,12 @@ def main(argv):
 
     # (X) correspondence, evaluated inside Coq
     if v.corr_ok and cases:
-        mism, errs = coq_eval_cases(PROP, IMPORTS, 'c19case', cases, shard=400)
+        # one evaluation returns both lists (the case list is far below one shard of 1000000)
+        both, errs = coq_eval_cases(PROP, IMPORTS, 'c19case', cases, check_fn='mismatches_and_order_only', shard=1000000)
+        mism = [i for i in both if i < 1000000]
+        oo, oerrs = [i - 1000000 for i in both if i >= 1000000], []
         expected = [i for i in mism if kinds[i] == 'RUN' and tag_of_dir.get(meta[i][1], '') in unsafe_tags and tag_of_dir.get(meta[i][1], '')]
         bad = [i for i in mism if i not in expected]
-        oo, oerrs = coq_eval_cases(PROP + 'o', IMPORTS, 'c19case', cases, check_fn='order_only_cases', shard=400)
         v.obligation('correspondence: model (all launches agree; directed inputs print a permutation of the same diagnostics) = implementation on %d cases; '
                      '%d cases differ only in the order of their diagnostics, %d differing cases belong to recorded order-dependent sites'
                      % (len(cases), len(oo), len(expected)), not bad and not errs and not oerrs,
